@@ -411,13 +411,13 @@ def run(ctx):
                   for H in range(2, mx + 1) for W in range(2, mx + 1) for vr in range(H) for vc in range(W)]
     if not thorough:
         table_jobs += [{"kind": "tables", "H": 7, "W": 7, "vr": vr, "vc": vc} for vr in range(7) for vc in range(7)]
-    tree_jobs = perm_jobs(rng, 4) + perm_jobs(rng, 5, limit=ctx.pick(200, 14400))
+    tree_jobs = perm_jobs(rng, 4) + perm_jobs(rng, 5, limit=ctx.pick(200, 5000))
     if thorough:
-        tree_jobs += perm_jobs(rng, 6, limit=4000)
-    tree_jobs += sim_jobs(ctx, rng, ctx.pick(80, 1500), ctx.pick(40, 60), 12)
-    comp_jobs = los_jobs(rng, ctx.pick(12, 160), steps=False) + big_jobs(rng, ctx.pick(50, 800)) + \
-        big_jobs(rng, ctx.pick(10, 150), sizes=[(17, 17), (21, 21)])
-    interp_jobs = los_jobs(rng, ctx.pick(40, 400), steps=True, every_observer=False) + \
+        tree_jobs += perm_jobs(rng, 6, limit=1500)
+    tree_jobs += sim_jobs(ctx, rng, ctx.pick(80, 600), ctx.pick(40, 60), 12)
+    comp_jobs = los_jobs(rng, ctx.pick(12, 120), steps=False) + big_jobs(rng, ctx.pick(50, 500)) + \
+        big_jobs(rng, ctx.pick(10, 100), sizes=[(17, 17), (21, 21)])
+    interp_jobs = los_jobs(rng, ctx.pick(40, 300), steps=True, every_observer=False) + \
         los_jobs(rng, ctx.pick(4, 30), steps=True, every_observer=True, sizes=[(3, 3), (4, 5), (5, 5)])
     results, errors = {}, {}
 
